@@ -869,13 +869,17 @@ func mapShapes(m map[string][]string, f func(string) string) map[string][]string
 // lenZeroEdges: the conditional edges of f on which len(p) = 0 is established (a comparison of len(p) with a
 // constant whose solution set among lengths is exactly {0}).
 func lenZeroEdges(f *ssa.Function, p ssa.Value) []edge {
+	return lenZeroEdgesOf(f, func(x ssa.Value) bool { return resolveLocal(stripConv(x)) == p })
+}
+
+func lenZeroEdgesOf(f *ssa.Function, isSubject func(ssa.Value) bool) []edge {
 	isLen := func(v ssa.Value) bool {
 		call, ok := stripConv(v).(*ssa.Call)
 		if !ok {
 			return false
 		}
 		b, isB := call.Call.Value.(*ssa.Builtin)
-		return isB && b.Name() == "len" && len(call.Call.Args) == 1 && resolveLocal(stripConv(call.Call.Args[0])) == p
+		return isB && b.Name() == "len" && len(call.Call.Args) == 1 && isSubject(call.Call.Args[0])
 	}
 	return condEdges(f, func(v ssa.Value) (bool, bool) {
 		b, ok := v.(*ssa.BinOp)
